@@ -197,6 +197,12 @@ func (e c07Entry) String() string {
 
 // CRC16/XMODEM as used by Redis Cluster, written here so that slot flags do not depend on repo code
 func c07Slot(key []byte) int {
+	// the hash-tag rule of the Redis Cluster specification: the text between the first '{' and the first '}' after it, if not empty
+	if i := bytes.IndexByte(key, '{'); i >= 0 {
+		if j := bytes.IndexByte(key[i+1:], '}'); j > 0 {
+			key = key[i+1 : i+1+j]
+		}
+	}
 	var crc uint16
 	for _, b := range key {
 		crc ^= uint16(b) << 8
@@ -633,6 +639,11 @@ func genC07(g *gen) {
 				name := fmt.Sprintf("k%d", i)
 				if r.Intn(6) == 0 {
 					name = "bl:" + name
+				}
+				if r.Intn(5) == 0 {
+					// brace arrangements of the hash-tag rule (only the slot filter looks at them)
+					name = []string{"k}v{u%d}.x", "}{u%d}", "{u%d}.following", "k{}{u%d}", "k{{u%d}}z", "k{u%d", "k%d}{", "{u%d}{v}"}[r.Intn(8)]
+					name = fmt.Sprintf(name, i)
 				}
 				if tdb == -1 && len(names) > 0 && r.Intn(8) == 0 {
 					name = names[r.Intn(len(names))] // the same key name in another database
